@@ -33,7 +33,7 @@ def gen(rng, i, tier):
     mixed = (i % 5 == 4)
     # every 8th case: parallel states whose initial list names a strict subset of their children (a transition may
     # then target a child that is not active while several siblings are)
-    c = hsm.gen_case(rng, p_parallel=(0.8 if i % 5 == 2 else 0.4), single_scope=not mixed, max_events=2, p_subset=(0.7 if i % 8 == 5 else 0.0), p_enum=0.2)
+    c = hsm.gen_case(rng, p_parallel=(0.8 if i % 5 == 2 else 0.4), single_scope=not mixed, max_events=2, p_subset=(0.7 if i % 8 == 5 else 0.0), p_enum=0.2, p_sep=0.15, p_queued=0.1)
     if i % 5 == 2:
         hsm.add_cross_region(c, rng)
     n = [0]
@@ -71,6 +71,10 @@ def gen(rng, i, tier):
     c['cls'] = CLASSES[i % len(CLASSES)]
     c['mixed'] = mixed
     return c
+
+
+def canon(case, obs):
+    return hsm.canon_queued(case, obs)
 
 
 def enc(case):
@@ -159,7 +163,9 @@ def oracle(case, obs):
             if o[2] != list(range(len(o[2]))):
                 return 'call %d: V2 candidates of %r evaluated in order %r' % (si, o[0], o[2])
         any_exec = any(o[3] for o in offered)
-        if res[0] == 0:
+        if res[0] == 0 and res[1] == 'queued':
+            pass        # queued machine: trigger() answers True whatever happened (value masked)
+        elif res[0] == 0:
             if res[1] != any_exec and offered:
                 return 'call %d: V6 result %r but executed=%r' % (si, res[1], any_exec)
             if not offered and res[1] is not False and res[1] != 0:
@@ -186,6 +192,10 @@ def nontrivial(case, obs):
 def stats(case, obs, dist):
     if case.get('enum'):
         dist['cases_with_enum_named_states'] = dist.get('cases_with_enum_named_states', 0) + 1
+    if case.get('sep'):
+        dist['cases_with_custom_separator'] = dist.get('cases_with_custom_separator', 0) + 1
+    if case.get('queued'):
+        dist['cases_on_queued_machines'] = dist.get('cases_on_queued_machines', 0) + 1
     if not isinstance(obs, list) or obs[0] != 1:
         return
     for items, res, cfg in obs[2]:
